@@ -161,13 +161,26 @@ def check_case(case):
             return fails, "ran"
         # MOMA / ROOM: reference = pFBA of the wild type, then a knock-out
         try:
-            refsol = pfba(wt)
+            if case.get("ref_order") == "permuted":
+                import random as _r
+                order = list(wt.reactions)
+                _r.Random(len(order) * 7 + 1).shuffle(order)
+                refsol = pfba(wt, reactions=order)          # same reference, Series not in model.reactions order
+            else:
+                refsol = pfba(wt)
         except Exception:
             return None, "not-feasible"
+        # GLPK's floats carry noise of ~1e-14 (a flux of -5.0000000000000275 against a bound of -5): the reference handed on is the
+        # same solution rounded to 1e-9 and clipped into the bounds, so that the formulations are not built on sub-tolerance slivers
+        for r in wt.reactions:
+            refsol.fluxes[r.id] = min(max(round(float(refsol.fluxes[r.id]), 9), r.lower_bound), r.upper_bound)
+        refsol.objective_value = round(float(refsol.objective_value), 9)
         ref = {r.id: F(float(refsol.fluxes[r.id])) for r in wt.reactions}
         rids = [r["id"] for r in spec["rxns"]]
         ko_spec = knock(spec, case["ko"]) if case.get("ko") else spec
         m = coreops.build_model(ko_spec)
+        if case.get("ref_order") == "model_reversed":
+            m.reactions.reverse()                            # the model's own list order differs from the reference's
         given = refsol if case["give_reference"] else None
         if given is None and case.get("ko"):
             # defaulted reference = pFBA of the model handed in (here: the knocked-out model)
@@ -179,11 +192,24 @@ def check_case(case):
             refobj = F(float(r2.objective_value))
         else:
             refobj = F(float(refsol.objective_value))
+        defaulted = given is None
         if method == "moma":
             cert = lpcert.certify([moma_lp(ko_spec, ref)])[0]
             if cert["status"] != "optimal":
                 return None, "ko-infeasible"
             exact = -cert["value"]
+            if defaulted:
+                # the reference is the pFBA solution MOMA computes itself (not unique, not returned): it is feasible for the
+                # model handed in, so the minimal distance is zero
+                try:
+                    sol = moma(m, solution=None, linear=True)
+                except Exception as e:
+                    return [f"moma raised {type(e).__name__}: {e}"], "ran"
+                fl = {r: sol.fluxes[r] for r in rids}
+                fails += feasibility_problems(ko_spec, fl)
+                if abs(sol.objective_value) > 1e-6:
+                    fails.append(f"MOMA with the defaulted reference reports distance {sol.objective_value}, the reference itself is feasible (distance 0)")
+                return fails, "ran"
             try:
                 sol = moma(m, solution=given, linear=True)
             except Exception as e:
@@ -195,6 +221,19 @@ def check_case(case):
                 fails.append(f"summed distance of the returned fluxes {dist} != minimum {float(exact)}")
             if not close(sol.objective_value, float(exact), 1e-5):
                 fails.append(f"MOMA objective value {sol.objective_value} != minimal distance {float(exact)}")
+            return fails, "ran"
+        if defaulted and method in ("room", "room_linear"):
+            if any(fbagen.fr(r["lb"]) is None or fbagen.fr(r["ub"]) is None for r in ko_spec["rxns"]):
+                return None, "infinite-bounds"
+            try:
+                sol = room(m, solution=None, linear=(method == "room_linear"), delta=float(F(case.get("delta", "3/100"))),
+                           epsilon=float(F(case.get("epsilon", "1/1000"))))
+            except Exception as e:
+                return [f"room raised {type(e).__name__}: {e}"], "ran"
+            fl = {r: sol.fluxes[r] for r in rids}
+            fails += feasibility_problems(ko_spec, fl)
+            if abs(sol.objective_value) > 1e-6:
+                fails.append(f"ROOM with the defaulted reference reports {sol.objective_value} changed fluxes, the reference itself changes none")
             return fails, "ran"
         if method == "room_linear":
             if any(fbagen.fr(r["lb"]) is None or fbagen.fr(r["ub"]) is None for r in ko_spec["rxns"]):
@@ -244,21 +283,58 @@ def check_case(case):
     return None, "unknown-method"
 
 
+def scale_spec(spec, k):
+    for r in spec["rxns"]:
+        for b in ("lb", "ub"):
+            if r[b] not in ("inf", "-inf"):
+                r[b] = canon_num(F(r[b]) * k)
+    return spec
+
+
+def canon_num(x):
+    import canon
+    return canon.num(x)
+
+
+def adversarial_objective(spec):
+    """An objective that is negative at the minimal-total-flux point (matters for fraction_of_optimum = 0)."""
+    from c05 import split_region
+    nn, vb, rows, crow = split_region(dict(spec, obj={}), F(0), F(0))
+    k = lpcert.certify([(nn, vb, rows[:-1], [F(-1)] * nn)])[0]
+    if k["status"] != "optimal":
+        return None
+    n = nn // 2
+    v = [k["x"][j] - k["x"][n + j] for j in range(n)]
+    cand = [(r["id"], x) for r, x in zip(spec["rxns"], v) if x != 0]
+    if not cand:
+        return None
+    rid, x = cand[0]
+    return {rid: "-1" if x > 0 else "1"}
+
+
 def gen_case(rng):
     spec = gen_bounded_spec(rng)
     rids = [r["id"] for r in spec["rxns"]]
     method = rng.choice(["pfba", "pfba", "pfba", "moma", "moma", "room_linear", "room"])
     case = {"spec": spec, "method": method}
     if method == "pfba":
-        case["fraction"] = rng.choice(["1", "1", "1/2", "9/10", "0"])
-        if rng.random() < 0.3:
+        case["fraction"] = rng.choice(["1", "1", "1/2", "9/10", "0", "0"])
+        if case["fraction"] == "0" and rng.random() < 0.6:
+            adv = adversarial_objective(spec)
+            if adv:
+                case["objective"] = adv
+                spec["dir"] = "max"
+        if "objective" not in case and rng.random() < 0.3:
             case["objective"] = {rng.choice(rids): "1"}
         if rng.random() < 0.3:
             case["reactions"] = rng.sample(rids, rng.randint(1, len(rids)))
     else:
         spec["dir"] = "max" if rng.random() < 0.8 else "min"
+        if rng.random() < 0.3:
+            scale_spec(spec, rng.choice([200, 500, 1000]))       # fluxes and bounds well beyond the configured default bounds
         case["ko"] = rng.choice(rids) if rng.random() < 0.8 else None
         case["give_reference"] = rng.random() < 0.75
+        case["ref_order"] = rng.choice(["model", "model", "permuted", "model_reversed"])
         if method == "room":
             if len(rids) > 7:
                 case["method"] = "room_linear"
